@@ -241,11 +241,20 @@ namespace link_layer {
     template < class BufferedRadio, class ReceiveCallbacks, std::size_t MTUSize >
     void ll_l2cap_sdu_buffer< BufferedRadio, ReceiveCallbacks, MTUSize >::add_to_receive_buffer( const std::uint8_t* begin, const std::uint8_t* end )
     {
-        const std::size_t copy_size = std::min< std::size_t >( receive_size_, end - begin );
+        const std::size_t size = end - begin;
+
+        // A fragment that is larger than what is still missing (or that belongs to no SDU at all)
+        // must not be copied: the SDU does not match its announced length and is dropped.
+        if ( size > receive_size_ )
+        {
+            receive_buffer_used_ = 0;
+            receive_size_        = 0;
+            return;
+        }
 
         std::copy( begin, end, &receive_buffer_[ receive_buffer_used_ ] );
-        receive_buffer_used_ += copy_size;
-        receive_size_ -= copy_size;
+        receive_buffer_used_ += size;
+        receive_size_        -= size;
     }
 
     template < class BufferedRadio, class ReceiveCallbacks, std::size_t MTUSize >
